@@ -413,7 +413,7 @@ func init() {
 			Deg: []Degree{{1, 0}},
 		},
 		&Indicator{
-			Name: "volatility.BollingerBandWidth", In: "p", Out: []string{"width"},
+			Name: "volatility.BollingerBandWidth", In: "p", Out: []string{"width"}, AnySign: true,
 			Note:    "Compute takes the closings (not the bands): bands are SMA_P +/- 2*Std_P of the input; \"Middle BollingerBandWidth\" read as the middle band",
 			Default: P(volatility.DefaultBollingerBandsPeriod),
 			Rand:    func(r *gen.Rand) Cfg { return P(r.Range(1, 12)) },
